@@ -34,7 +34,7 @@ def gates(c, tier):
     # evidence ("contract:<name>") but do not gate: a refactor may stop routing the classes through those functions.
     need = ["int-write", "int-read-padded", "int-read-random", "enum", "tag", "tag-multioctet", "len-long", "bool", "octets", "nest",
             "child-refuses-sibling", "reader-op-sequences", "writable-input", "truncated-with-header", "header-truncations", "writer-interleavings",
-            "failed-read-keeps-position", "input-buffer-kinds", "int-beyond-4300-digits", "repo-tests-under-contracts:runs"]
+            "failed-read-keeps-position", "input-buffer-kinds", "push-sequence-tags", "int-beyond-4300-digits", "repo-tests-under-contracts:runs"]
     return [f"never exercised: {k}" for k in need if c.get(k, 0) == 0]
 
 
@@ -198,6 +198,31 @@ def chk_view_formats(r):
             continue
         if got != want or rest != b"":
             out.append((f"view-format-differs:{fmt}", f"the same octets read from a {fmt} input gave {str(got)[:160]}, expected {str(want)[:160]}"))
+    return out
+
+
+def chk_push_tags(r):
+    """The tag given to push_sequence / push_set is the tag written: class, number and form as given."""
+    out = []
+    cls = r.randrange(4)
+    num = r.choice([0, 1, 5, 16, 17, 30, 31, 127, 128, 16384])
+    pc = r.random() < 0.6
+    if cls == 0 and num not in (16, 17):
+        cls = 2
+    inner = r.randrange(-300, 300)
+    for which in ("seq", "set"):
+        w = A.ASN1Writer()
+        tag = A.ASN1Tag(A.TagClass(cls), A.TypeTagNumber(num) if cls == 0 else num, pc)
+        try:
+            with (w.push_sequence(tag) if which == "seq" else w.push_set(tag)) as c:
+                c.write_integer(inner)
+            data = bytes(w.get_data())
+        except Exception as e:
+            out.append((f"push-tag-exc:{type(e).__name__}", f"push_{which} with tag {(cls, num, pc)} raised {type(e).__name__}: {e}"))
+            continue
+        exp = _tlv(cls, pc, num, _tlv(0, False, 2, ber.int_content(inner)))
+        if data != exp:
+            out.append((f"push-tag-octets:{'constructed' if pc else 'primitive'}-form", f"push_{which} with tag {(cls, num, pc)} wrote {data[:12].hex()} expected {exp[:12].hex()}"))
     return out
 
 
@@ -628,6 +653,10 @@ def run_case(kind, args):
         return chk_truncated_with_header(_random.Random(args[0]))
     if kind == "bigint":
         return chk_bigint(args[0])
+    if kind == "pushtags":
+        import random as _random
+
+        return chk_push_tags(_random.Random(args[0]))
     if kind == "viewfmt":
         import random as _random
 
@@ -720,6 +749,8 @@ def run_shard(ctx: Ctx, acc: Acc):
         acc.count("octets")
         do("writable", (gv.g_int(r), i % 2), True, "writable-input")
         do("truncated", (r.randrange(1 << 60),), True, "truncated-with-header")
+        if i % 4 == 2:
+            do("pushtags", (r.randrange(1 << 60),), True, "push-sequence-tags")
         if i % 4 == 1:
             do("viewfmt", (r.randrange(1 << 60),), True, "input-buffer-kinds")
         do("hdrtrunc", (r.randrange(1 << 60),), True, "header-truncations")
